@@ -315,6 +315,10 @@ pub fn cmp_num(a: &Val, b: &Val) -> std::cmp::Ordering {
     match (a, b) {
         (Val::Int(x), Val::F(y)) => (*x as f64).total_cmp(y),
         (Val::F(x), Val::Int(y)) => x.total_cmp(&(*y as f64)),
+        (Val::Dec(h), Val::Int(y)) => (*h as i128).cmp(&(*y as i128 * 100)),
+        (Val::Int(x), Val::Dec(h)) => (*x as i128 * 100).cmp(&(*h as i128)),
+        (Val::Dec(h), Val::F(y)) => (*h as f64 / 100.0).total_cmp(y),
+        (Val::F(x), Val::Dec(h)) => x.total_cmp(&(*h as f64 / 100.0)),
         _ => a.cmp(b),
     }
 }
